@@ -9,6 +9,7 @@ CONSTANTS
   RDelims <- NoRDelims
   MaxParts = 1
   MaxOps = 1
+  MaxRetry = 1
   ContentSel = {1, 9}
   ProfileSel = {1}
   UseJson = FALSE
